@@ -717,10 +717,13 @@ def main():
         from translate_single import emit_single  # noqa
 
         ns = emit_single(outdir)
+        from translate_asserted import emit_asserted  # noqa
+
+        na = emit_asserted(outdir)
     except TranslateError as e:
         print(str(e))
         sys.exit(2)
-    print(f"translate: {nr} parser rules, {nc} instruction classes, {nl} leaf functions, {nk} key/index classification functions, {ns} wrapper functions -> {outdir}")
+    print(f"translate: {nr} parser rules, {nc} instruction classes, {nl} leaf functions, {nk} key/index classification functions, {ns} wrapper functions, {na} condition-combination functions -> {outdir}")
 
 
 if __name__ == "__main__":
